@@ -100,8 +100,9 @@ def run(ctx):
                        'the predefined catalogue is covered by C20 (Scale vectors), not here']
     calcmodel.laws(ctx, 'conv')
     calccheck.run_programs(ctx, programs(ctx), 'convert', sigfn=sig)
+    from checks import bcalccheck
+    bcalccheck.dep_canonical(ctx, bcalccheck.DEP['C01'])
     if ctx.tier == 'thorough':
-        from checks import bcalccheck
         bcalccheck.repo_suite(ctx, {'Convert'})
 
 
